@@ -115,7 +115,17 @@ def chk_surv(case, note):
             return "%s(%s) -> %r, encoded %r" % (nm, msg, r, exp)
         if len(r[1]) != len(exp) + 1 or not (r[1][-1] is None or isinstance(r[1][-1], str)):
             return "%s(%s) -> %r: expected %d value(s) plus a description" % (nm, msg, r, len(exp))
-    note.evals = 3
+    # py_common also exports fs/dr/um (documented for DF 4, 5, 20, 21); same fields on short and long replies
+    long_msg = frames.tohex(frames.raw(case["df"] + 16, (body << 56) | (case["ctx_addr"] * 0x100000001 & ((1 << 56) - 1)), 112, case["ctx_addr"]), 112, case["hc"])
+    for m in (msg, long_msg):
+        for nm, exp in (("fs", (fs,)), ("dr", (dr,)), ("um", (iis, ids))):
+            fn = getattr(pms.py_common, nm, None)
+            if fn is None:
+                continue
+            r = call(fn, m)
+            if r[0] != "ok" or not isinstance(r[1], tuple) or tuple(r[1][: len(exp)]) != exp:
+                return "py_common.%s(%s) -> %r, encoded %r" % (nm, m, r, exp)
+    note.evals = 9
     note.cls("DF%d" % case["df"])
     note.nt(bool(fs or dr or iis or ids))
     return None
